@@ -225,12 +225,21 @@ func runParent(p *core.Prop, fs *findings.Set, tier string, jobs int) int {
 	}
 	cov["samples"] = samples
 	cov["exhaustive"] = exhaustive
-	cov["incomplete"] = res.Incomplete
 	cov["counters"] = res.Counters
 	cov["per_scope"] = res.PerScope
 	cov["units"] = res.Units
 	cov["workers"] = jobs
-	cov["trusted_base"] = p.Trusted
+	tb := p.Trusted
+	if tb == nil {
+		tb = []string{"the Go toolchain and standard library", "the checker's own generators and oracles (DESIGN.md)"}
+	}
+	cov["trusted_base"] = tb
+	if res.Incomplete == nil {
+		res.Incomplete = []string{}
+	}
+	if res.Notes == nil {
+		res.Notes = []string{}
+	}
 	kf := map[string]any{}
 	for id, n := range res.KnownCount {
 		w := res.KnownWit[id]
@@ -253,6 +262,7 @@ func runParent(p *core.Prop, fs *findings.Set, tier string, jobs int) int {
 	}
 	cov["distinct_outcomes"] = sets
 	cov["notes"] = res.Notes
+	cov["incomplete"] = res.Incomplete
 	if len(res.Internal) > 0 {
 		cov["internal_errors"] = res.Internal
 	}
